@@ -20,7 +20,8 @@ pub fn gen_case(rc: &RunCtx, blob_heavy: bool, nasty: bool) -> WriterCase {
         placement_residue: placement,
         nasty_strings: nasty,
         ext: true,
-        allow_abandon: false,
+        // abandoned point cloud / image writers must leave later content untouched
+        allow_abandon: true,
         max_points_knob_off: 25_000,
         custom_xml: false,
         small: false,
@@ -36,6 +37,22 @@ pub fn gen_case(rc: &RunCtx, blob_heavy: bool, nasty: bool) -> WriterCase {
         let n = *g.pick(&[100_000usize, 140_000, 200_000]);
         prog.knob = None;
         prog.calls.push(Call::Pc { guid: gen_guid(&mut g), proto, steps: vec![PcStep::Points { n, seed: g.next_u64() }], end: SubEnd::Finalize });
+    }
+    if rc.index % 512 == 383 {
+        // hundreds of constant (zero-width) extension records next to sized ones, enough points to
+        // fill a packet at the library's own capacity
+        use crate::model::*;
+        let ns = "ext".to_string();
+        if !prog.calls.iter().any(|c| matches!(c, Call::RegisterExt { ns: n, .. } if *n == ns)) {
+            prog.calls.insert(0, Call::RegisterExt { ns: ns.clone(), url: "http://example.org/many-constants".into() });
+        }
+        let mut proto: Vec<Rec> = [0u8, 1, 2].iter().map(|i| Rec { name: Name::Std(*i), dt: DType::Double { min: None, max: None } }).collect();
+        let k = *g.pick(&[120usize, 260, 300, 600]);
+        for i in 0..k {
+            proto.push(Rec { name: Name::Ext { ns: ns.clone(), name: format!("const{i}") }, dt: DType::Int { min: 42, max: 42 } });
+        }
+        prog.knob = None;
+        prog.calls.push(Call::Pc { guid: gen_guid(&mut g), proto, steps: vec![PcStep::Points { n: *g.pick(&[2_700usize, 2_800, 6_000]), seed: g.next_u64() }], end: SubEnd::Finalize });
     }
     let (wchunk, rchunk, sink) = draw_chunks(rc.run_seed);
     WriterCase { prog, wchunk, rchunk, sink, legacy_blob_headers: false }
